@@ -263,6 +263,32 @@ pub fn run(args: &Args) {
             _ => run_model::<Dippr>(&mut tr, &mut sc, &t, &plans, args, &mut rng),
         }
     }
+    // binary records that carry association parameters (SAFT-VR Mie has its own binary record type): whatever the order of the query and the orientation
+    // in which the record is stored, BOTH cross entries of the association matrices of the built parameters are the record's values
+    {
+        let pure = crate::zoo::ppath("saftvrmie/lafitte2013.json");
+        for (a, b) in [("methanol", "ethanol"), ("ethanol", "1-butanol"), ("methanol", "1-propanol")] {
+            for stored_swapped in [false, true] {
+                let (eps, rc) = (2600.0 + rng.range(-300.0, 300.0), 1.3 + rng.range(-0.1, 0.1));
+                let (i1, i2) = if stored_swapped { (b, a) } else { (a, b) };
+                let file = format!("{}/assoc_binary_{}_{}_{}.json", dir, a, b, stored_swapped);
+                std::fs::write(&file, json!([{"id1": {"name": i1}, "id2": {"name": i2}, "model_record": {"k_ij": 0.01, "rc_ab": rc, "epsilon_k_ab": eps}}]).to_string()).unwrap();
+                for query_swapped in [false, true] {
+                    let q = if query_swapped { vec![b, a] } else { vec![a, b] };
+                    let r = guarded(std::panic::AssertUnwindSafe(|| SaftVRMieParameters::from_json(q.clone(), &pure, Some(&file), IdentifierOption::Name)));
+                    let ev = match r {
+                        Ok(Ok(p)) => json!({"ev":"AssocBinary","model":"SaftVRMie","pair":[a, b],"stored_swapped":stored_swapped,"query_swapped":query_swapped,"ok":true,
+                            "eps_record":fs(eps),"rc_record":fs(rc),"eps":fm(&p.association.epsilon_k_ab),"rc":fm(&p.association.rc_ab)}),
+                        Ok(Err(e)) => json!({"ev":"AssocBinary","model":"SaftVRMie","pair":[a, b],"stored_swapped":stored_swapped,"query_swapped":query_swapped,"ok":false,"err":err_kind(&e),
+                            "eps_record":fs(eps),"rc_record":fs(rc),"eps":[],"rc":[]}),
+                        Err(m) => json!({"ev":"AssocBinary","model":"SaftVRMie","pair":[a, b],"stored_swapped":stored_swapped,"query_swapped":query_swapped,"ok":false,"err":format!("Panic:{}", m),
+                            "eps_record":fs(eps),"rc_record":fs(rc),"eps":[],"rc":[]}),
+                    };
+                    tr.ev(ev);
+                }
+            }
+        }
+    }
     crate::c14seg::run(&mut tr, args, &mut rng);
     std::fs::remove_dir_all(&dir).ok();
     let n = tr.finish();
